@@ -365,6 +365,57 @@ def run(facts, tier):
             e4.violate("main-loop", f"the main loop of data::run does not propagate the first error on both levels (try_for_each x{ntry}, for_each x{nfor})", where=dr["sp"])
     rules.append(e4.finish())
 
+    # ---------------- I17.6 one input stream
+    i6 = Rule("I17.6", "one input stream: the function that builds the run-time data wraps the caller's input iterator in exactly one shared iterator; the main loop iterates "
+              "that same object and the data handed to `input`/`inputs` holds that same object (every input is consumed once, by whoever asks first); "
+              "the accessor used by `input`/`inputs` returns that field", floor=4)
+    runs = [j for c_, j in facts.all_mir() if c_ == "jaq_all" and not j.get("test") and any(
+        s_.get("k") == "A" and s_["r"].get("k") == "Agg" and (s_["r"].get("ak") or "") == "Adt:jaq_all::data::Data" for bb_ in j["bbs"] for s_ in bb_["st"])]
+    if len(runs) != 1:
+        i6.missing_anchor(f"the function that builds jaq_all::data::Data ({len(runs)} found)")
+    else:
+        b = Body(runs[0])
+        argc = runs[0].get("argc") or 0
+        fields = [f_["name"] for a_ in facts.items("jaq_all")["adts"] if a_["def"] == "jaq_all::data::Data" for f_ in a_["variants"][0]["fields"]]
+        shared = b.find_calls(r"^jaq_std::input::RcIter::<I>::new$")
+        # parameters that are iterators of inputs: those whose flow reaches a shared-iterator constructor
+        from_param = [c for c in shared if any(set(b.arg_locals(c)) & b.derived_from([p_]) for p_ in range(1, argc + 1))]
+        i6.examined("shared-iterators", True, {"shared_iterators_built": len(shared), "fed_by_the_callers_inputs": len(from_param)})
+        if len(from_param) != 1:
+            i6.violate("shared/count", f"{len(from_param)} shared iterators are built from the caller's inputs (expected exactly one): main loop and `input`/`inputs` would not draw from one stream", where=runs[0]["sp"])
+        elif "inputs" not in fields:
+            i6.missing_anchor("field Data.inputs")
+        else:
+            the = b.derived_from([b.call_result_local(from_param[0])])
+            k = fields.index("inputs")
+            for bb_ in b.bbs:
+                for s_ in bb_["st"]:
+                    if s_.get("k") == "A" and s_["r"].get("k") == "Agg" and (s_["r"].get("ak") or "") == "Adt:jaq_all::data::Data":
+                        ok = op_local(s_["r"]["ops"][k]) in the
+                        i6.examined("data.inputs", True, {"data_inputs_is_the_shared_iterator": ok})
+                        if not ok:
+                            i6.violate("data/inputs", "the data handed to the filter does not hold the shared iterator built from the caller's inputs: `input`/`inputs` would read another stream than the main loop", where=s_.get("sp"))
+            loops = [c for c in b.find_calls(r"Iterator::(try_for_each|for_each|try_fold|fold|next)$") if not b.bbs[c].get("cleanup")]
+            main = [c for c in loops if set(b.arg_locals(c, 0)) & the]
+            i6.examined("main-loop", True, {"main_loop_iterates_the_shared_iterator": bool(main)})
+            if not main:
+                i6.violate("main-loop", "the main loop does not iterate the shared iterator that `input`/`inputs` draw from: inputs would be delivered twice or out of order", where=runs[0]["sp"])
+            others = [c for c in loops if c not in main and any(set(b.arg_locals(c, 0)) & b.derived_from([p_]) for p_ in range(1, argc + 1))]
+            if others:
+                i6.violate("main-loop/bypass", "the caller's inputs are also iterated directly, bypassing the shared iterator", where=b.bbs[others[0]]["t"]["sp"])
+        acc = facts.mir_find(r"^<&'a jaq_all::data::Data<'a> as jaq_std::input::HasInputs<.*>>::inputs$|^<&.*jaq_all::data::Data<.*> as jaq_std::input::HasInputs<.*>>::inputs$", "jaq_all")
+        if len(acc) != 1 or "inputs" not in fields:
+            i6.missing_anchor("HasInputs::inputs for &Data")
+        else:
+            k = fields.index("inputs")
+            reads = [s_ for bb_ in acc[0]["bbs"] for s_ in bb_["st"] if s_.get("k") == "A" and s_["r"].get("k") in ("Use", "Ref") and {"f": k} in ((s_["r"].get("o", {}).get("c") or s_["r"].get("o", {}).get("m") or s_["r"].get("p") or {}).get("pr") or [])]
+            ab = Body(acc[0])
+            ok = bool(reads) and 0 in ab.derived_from([reads[0]["p"]["l"]])
+            i6.examined("accessor", True, {"accessor_returns_field_inputs": ok})
+            if not ok:
+                i6.violate("accessor", "the accessor that `input`/`inputs` use does not return the `inputs` field of the run-time data", where=acc[0]["sp"])
+    rules.append(i6.finish())
+
     explanation = ("Finite tables (exit status, option tables against help.txt, terminators) extracted from the typed HIR, a must-pass-through rule for the flush in the value writer (MIR), "
                    "and a no-discarded-Result rule over the driver crates. Not decided: the byte stream itself, which consumer takes which input, colours.")
     return finish("C17", "other", rules, t0, tier, explanation, ["help.txt is the text printed by --help (include_str!)", "std::process::exit terminates with the given code"])
